@@ -289,6 +289,20 @@ func (g *G) ofType(typ byte, cfg *Cfg) *ref.AP {
 			}
 		}
 		a.Payload = g.Bin(n)
+		if len(a.Payload) > 0 && t.Bool(1, 6) {
+			// a payload that continues in the syntax of what precedes it: it begins with
+			// the identifier of a property of this very packet (a decoder that runs past
+			// the end of the property section reads it as one more property), with a
+			// whole encoded property, or with any defined identifier
+			switch k := t.Int(3); {
+			case k == 0 && len(a.Props) > 0:
+				a.Payload[0] = a.Props[len(a.Props)-1].ID
+			case k == 1 && len(a.Props) > 0:
+				a.Payload[0] = a.Props[t.Int(len(a.Props))].ID
+			default:
+				a.Payload[0] = ref.PropTable[t.Int(len(ref.PropTable))].ID
+			}
+		}
 	case ref.PubAck, ref.PubRec, ref.PubRel, ref.PubComp:
 		a.PacketID = g.U16()
 		if !wf && t.Bool(1, 10) {
@@ -403,6 +417,10 @@ func Bulk(t *sim.Tape, thorough bool) *ref.AP {
 	if thorough && t.Bool(1, 4) {
 		n = 3000 + t.Int(9000)
 	}
+	over16 := t.Bool(1, 25)
+	if over16 {
+		n = 65536 + t.Int(3000) // more elements than a 16-bit counter holds
+	}
 	tiny := func() []byte { return g.Str(1 + t.Int(2)) }
 	ups := func(k int) []ref.Prop {
 		ps := make([]ref.Prop, 0, k)
@@ -431,7 +449,11 @@ func Bulk(t *sim.Tape, thorough bool) *ref.AP {
 	case 2:
 		typ := []byte{ref.SubAck, ref.UnsubAck}[t.Int(2)]
 		a := &ref.AP{Type: typ, PacketID: 1 + uint16(t.Int(65535))}
-		for i := 0; i < 8*n; i++ {
+		k := 8 * n
+		if over16 {
+			k = n
+		}
+		for i := 0; i < k; i++ {
 			a.Codes = append(a.Codes, []byte{0, 0x80, 0x87}[t.Int(3)])
 		}
 		return a
